@@ -26,7 +26,7 @@ F2_ALL = ["atan2", "beta", "zeta", "polygamma", "lowergamma", "uppergamma", "kro
 SYMS = ["x", "y", "z"]
 NUMS = ["(i 2)", "(i 3)", "(i -1)", "(i -2)", "(q 1 2)", "(q -3 2)", "(q 2 3)", "(i 5)", "(i 1)", "(i 0)", "pi", "E",
         "(q 7 4)", "(i -5)"]
-RARE_NUMS = ["I", "(d 3ff8000000000000)", "(c 1 2 1 3)", "EulerGamma", "(i 18446744073709551617)"]
+RARE_NUMS = ["I", "(d 3ff8000000000000)", "(c 1 2 1 3)", "EulerGamma", "(q 22 7)"]
 
 
 def translate(ctx):
@@ -161,6 +161,13 @@ CORPUS = [
     case("x", "(mul (c 1 2 1 3) (f1 sin __X))"), case("x", "(pow __X (d 4004000000000000))"),
     # complex branch: acosh' = 1/sqrt(x^2-1) is wrong in the left half plane
     case("x", "(f1 acosh (sub (i 0) __X))"),
+    # exact oracle with multi-limb coefficients
+    case("x", "(mul (i 18446744073709551617) (pow __X (i 3)))"),
+    case("x", "(div (add (pow __X (i 5)) (i 36893488147419103232)) (add (mul (q 1 18446744073709551629) __X) y))"),
+    # constants whose rule factor is singular: mul(zoo, 0) = nan, polygamma(0, 2^64+1) throws
+    case("x", "(f1 asec (i 0))"), case("x", "(f1 loggamma (i 18446744073709551617))"), case("y", "(f2 beta I x)"),
+    # Max/Min independent of x
+    case("x", "(max y z)"), case("y", "(diff (fs f (max (i 0) z) __X) __X)"),
 ]
 
 
@@ -213,6 +220,8 @@ def oracle_key(kind, dx, de, res=""):
     if kind == "absent":
         if "(NaN)" in res:
             return "C10/absent:nan-from-singular-constant"
+        if res.startswith("EXN"):
+            return "C10/absent:exception-from-singular-constant"
         if "(G Derivative (G Max" in res or "(G Derivative (G Min" in res or "(G Derivative (G UnevaluatedExpr" in res:
             return "C10/absent:unevaluated-derivative-of-Max-Min"
         return "C10/absent-but-nonzero"
@@ -231,8 +240,10 @@ def explore(ctx, drv, model, cases, search=False):
         f = line.split("\t")
         if "CRASH" in line or "HANG" in line or "UNCAUGHT" in line or line.startswith("NOOUTPUT"):
             key = "C10/crash"
-            if len(f) >= 2 and "(NaN)" in f[1]:
-                key = "C10/crash:nan-coefficient-subs-recursion"
+            if len(f) >= 2 and "(Subs " in f[1] and "(NaN)" in f[1]:
+                key = "C10/crash:subs-recursion-after-nan-derivative"
+            elif len(f) >= 2 and "(Subs " in f[1] and ("(Deriv (FN Max" in f[1] or "(Deriv (FN Min" in f[1]):
+                key = "C10/crash:subs-recursion-after-Max-Min-derivative"
             ctx.violation(key, "case `%s` ends with %s on the library (e = %s)" % (c, line[-60:].split("\t")[-1], f[1][:300] if len(f) > 1 else "?"),
                           {"family": "C10", "case": c, "impl": line})
             parsed.append(None)
@@ -300,7 +311,7 @@ def explore(ctx, drv, model, cases, search=False):
             ctx.cov[key] = ctx.cov.get(key, 0) + 1
             if p["info"].get("occurs") == 1 and p["res"] not in ("R:(I 0)",):
                 nontriv.add(p["e"] + "|" + p["x"])
-        elif "(NaN)" in p["res"] or "(Inf " in p["res"]:
+        elif "(NaN)" in v or "(Inf " in v:
             # a singular constant sub-expression (asec(0), log(0), ...): mul(zoo, 0) = nan on the library,
             # 0 in the model; where x does not occur the absent oracle has reported the case
             ctx.cov["tie_skipped_singular_constant"] = ctx.cov.get("tie_skipped_singular_constant", 0) + 1
